@@ -196,6 +196,15 @@ def check_surrogate(case):
                 s.trainDrivingForce(xt, Tt if len(Tt) > 1 else Tt[0], logX=case["logX"])
             d = s.drivingForceData["BETA"]
             _requested_points(out, "driving force", np.ravel(d["x"]), np.ravel(d["T"]), xt, np.array(case["Tpoint"]) if case.get("pointwise") else np.array(Tt, dtype=float), bool(case.get("pointwise")))
+            if not case.get("pointwise") and case.get("reuse_arrays"):
+                # broadcast training builds its own grid: the caller's composition array may be reused afterwards (next phase, next
+                # alloy) without touching what the surrogate holds, writes to its file and rebuilds from it
+                kept = np.array(np.ravel(d["x"]), dtype=float).copy()
+                xt *= 3.0
+                if not np.array_equal(np.ravel(s.drivingForceData["BETA"]["x"]), kept):
+                    out.fail("training_data_follows_callers_array", "the compositions stored with the driving-force surrogate changed when the caller reused its composition array after training (broadcast grid of %d x %d)" % (len(kept) // max(len(Tt), 1), len(Tt)))
+                xt /= 3.0
+                out.label("caller_arrays_reused_after_training")
             dg, xp = s.getDrivingForce(d["x"], d["T"])
             rng = max(float(np.ptp(d["dg"])), 1e-300)
             if not np.allclose(np.ravel(dg), np.ravel(d["dg"]), rtol=0, atol=1e-6 * rng):
@@ -542,9 +551,10 @@ def _surr_case(draw):
     if draw(st.integers(0, 4)) == 4:
         Ttrain = [float(v) for v in np.linspace(T0 - 40.0, T0 + 40.0, nx)]        # square grid: as many temperatures as compositions
     train = draw(st.lists(st.sampled_from(["df", "diff", "ic"]), min_size=0, max_size=3, unique=True))
+    reuse = draw(st.booleans())
     pointwise = draw(st.integers(0, 3)) == 3
     Tpoint = [T0 + (-1) ** k * (8.0 + 4.0 * k + draw(st.floats(0.0, 3.0))) for k in range(nx)] if pointwise else None      # zig-zag: never collinear with the increasing compositions
-    return {"pointwise": pointwise, "Tpoint": Tpoint, "ic_grid": draw(st.booleans()), "phase": phase, "D0": 1e-5, "Q": draw(st.floats(100e3, 250e3)), "xtrain": [float(v) for v in xtrain], "Ttrain": Ttrain,
+    return {"pointwise": pointwise, "reuse_arrays": reuse, "Tpoint": Tpoint, "ic_grid": draw(st.booleans()), "phase": phase, "D0": 1e-5, "Q": draw(st.floats(100e3, 250e3)), "xtrain": [float(v) for v in xtrain], "Ttrain": Ttrain,
             "gtrain": [float(v) for v in np.linspace(draw(st.floats(50, 500)), draw(st.floats(1000, 4000)), draw(st.integers(4, 7)))],
             "train": train, "logX": draw(st.booleans()), "kernel": draw(st.sampled_from(["cubic", "linear", "thin_plate_spline"])),
             "xq": [float(lo * 1.3), float(0.5 * (lo + hi))], "Tq": [T0, T0 + 10.0], "gq": [300.0, 900.0]}
